@@ -215,6 +215,11 @@ func (node *BinaryExprNode) getTypedExpr() (BoolNode, error) {
 }
 
 func (node *BinaryExprNode) handleIsNullOps() (BoolNode, error) {
+	// a count is a number, never null: comparing it with null is a type error like comparing it with a string. (It also
+	// implements SymbolNode, and testing the set symbol underneath for null evaluates it without an open cursor.)
+	if _, isCount := node.left.(*CountSetExprNode); isCount {
+		return node.invalidOpTypes()
+	}
 	symbolNode, isSymbol := node.left.(SymbolNode)
 	if isSymbol && (node.op == BinaryOpEQ || node.op == BinaryOpNEQ) {
 		return &IsNilExprNode{
